@@ -236,10 +236,10 @@ func checkTrieCases(f lib.Flags, res *lib.Result, drv *lib.Driver, cases []*Trie
 	})
 	// model answers, one batch
 	var all []string
-	for i, o := range outs {
-		o.lines, o.obsIdx = modelLines(o.c, i%1000)
+	for _, o := range outs {
+		o.lines, o.obsIdx = modelLines(o.c, 0)
 		all = append(all, o.lines...)
-		o.llines, o.lobs = legacyModelLines(o.c, i%1000)
+		o.llines, o.lobs = legacyModelLines(o.c, 0)
 		if o.c.Height <= 8 {
 			// tie between the Lean definition `Spec.root` and the Go recomputation used as oracle
 			_, fin := specTrace(o.c)
@@ -256,9 +256,9 @@ func checkTrieCases(f lib.Flags, res *lib.Result, drv *lib.Driver, cases []*Trie
 			o.llines = append(o.llines, line)
 		}
 		all = append(all, o.llines...)
-		o.blines, o.bobs = lazyModelLines(o.c, i%1000)
+		o.blines, o.bobs = lazyModelLines(o.c, 0)
 		all = append(all, o.blines...)
-		o.zlines, o.zobs = restartModelLines(o.c, i%1000)
+		o.zlines, o.zobs = restartModelLines(o.c, 0)
 		all = append(all, o.zlines...)
 	}
 	var answers []string
